@@ -313,6 +313,25 @@ pub fn run(args: &Args) -> i32 {
     }
     let progs = all_families(&b, &fams);
     let budget = edb_budget(prop, run.quick());
+    // walk the families interleaved (proportionally), not one after the other: if the time cap ends the walk, every
+    // family has been covered to the same fraction instead of the last ones not at all
+    let progs: Vec<GenProg> = {
+        let mut by_fam: BTreeMap<&str, Vec<GenProg>> = BTreeMap::new();
+        for g in progs {
+            by_fam.entry(g.family).or_default().push(g);
+        }
+        let total: usize = by_fam.values().map(|v| v.len()).sum();
+        let mut keyed: Vec<(u64, usize, GenProg)> = vec![];
+        for (fi, (_, v)) in by_fam.into_iter().enumerate() {
+            let n = v.len();
+            for (k, g) in v.into_iter().enumerate() {
+                // position of the k-th of n programs on a common 0..total scale
+                keyed.push((((k as u64) * (total as u64) * 2 + total as u64) / (n as u64 * 2), fi, g));
+            }
+        }
+        keyed.sort_by_key(|(pos, fi, _)| (*pos, *fi));
+        keyed.into_iter().map(|(_, _, g)| g).collect()
+    };
     run.put("programs", json!(progs.len()));
     let mut fam_counts: BTreeMap<&str, usize> = BTreeMap::new();
     for g in &progs {
